@@ -9,8 +9,9 @@
 //! `Patch` through `radicle::cob::Evaluate::{init, apply}`.
 //!
 //! Direct oracle (independent of the model): whenever the real patch newly
-//! reports `Merged{revision, commit}` the recorded merges of that pair are
-//! recounted against the threshold of the op's document; every entry of
+//! reports `Merged{revision, commit}` the distinct delegates that issued an
+//! on-branch `Merge` of that pair in the history so far are recounted against
+//! the threshold of the op's document; every entry of
 //! `Patch::merges()` must be backed by a `Merge` action of that actor issued as a
 //! delegate with the commit on its branch (checked with plain git2 calls); an op
 //! without `Merge` actions must not move a merged patch.
@@ -35,7 +36,7 @@ fn main() {
     ));
     let f = Flags { dbg: cfg!(debug_assertions), issue_atomic, patch_atomic, check_c07: false, check_c08: true };
     let seed = run.args.seed;
-    let n = run.args.count(500, 6000);
+    let n = run.args.count(500, 3500);
     for i in 0..n {
         let id = format!("merge:{i}");
         if !run.args.wants(&id) {
